@@ -69,7 +69,7 @@ def gen(ctx):
                 if quick and n > 4 and r.random() > 0.35: continue
                 cases.append(["fio until %d %s %s" % (r.choice([0, 1, 3, 16]), hx(d), hx(f))])
     ctx.exhaustive = True
-    ctx.extra_cov["exhaustive"] = "lines: all files over {a,b,newline} to length %d; until: 10 delimiters (self-overlapping ones) x files over {a,b} to length %d" % ((5, 6) if quick else (7, 9))
+    ctx.extra_cov["exhaustive_scope"] = "lines: all files over {a,b,newline} to length %d; until: 10 delimiters (self-overlapping ones) x files over {a,b} to length %d" % ((5, 6) if quick else (7, 9))
     for _ in range(1500 if quick else 40000):
         k = r.random()
         cap = r.choice([0, 1, 2, 7, 8, 64])
